@@ -53,6 +53,7 @@ var zooTypes = []reflect.Type{
 	reflect.TypeOf(anon1{}), reflect.TypeOf(anon2{}), reflect.TypeOf(anon3{}), reflect.TypeOf(za.Deep{}), reflect.TypeOf(za.EmbedsDeep{}),
 	reflect.TypeOf(za.Overlap{}), reflect.TypeOf(za.OverlapEmb{}), reflect.TypeOf(za.Times{}),
 	reflect.TypeOf(xv1.Entry{}), reflect.TypeOf(yv1.Invoice{}), reflect.TypeOf(xv1.Entry{}), reflect.TypeOf(yv1.Invoice{}),
+	reflect.TypeOf(za.EmbTag{}), reflect.TypeOf(za.EmbTag{}),
 }
 
 var structOfFieldTypes = []reflect.Type{
